@@ -11,7 +11,10 @@
      wc.c  connection c closed by the server
      di.j  Shutdown call j invoked       dc.j  its context cancelled
      dr.j.r  it returned (0 nil, 1 context error, 2 not-started error)
-   out  = ok | rej:<index of the first event no execution can produce> | fuel *)
+   out  = ok | rej:<index of the first event no execution can produce> | fuel
+          (logs of up to 18 events are judged by the full hidden-step closure
+          and by the reduced acceptor, which must agree; longer ones by the
+          reduced acceptor) *)
 From Dns Require Import Model.ServerLts.
 Open Scope nat_scope.
 
@@ -64,10 +67,17 @@ Definition run (fn : string) (args : list string) : string :=
     match parse_events (tl args) with
     | None => "bad-event"%string
     | Some obs =>
-      match accepts m obs with
-      | inl i => "rej:"%string +++ decn i
-      | inr None => "fuel"%string
-      | inr (Some _) => "ok"%string
-      end
+      let show (r : nat + option nat) : string :=
+          match r with
+          | inl i => "rej:"%string +++ decn i
+          | inr None => "fuel"%string
+          | inr (Some _) => "ok"%string
+          end in
+      (* long logs: the reduced acceptor; short logs: both must agree *)
+      let r := show (accepts_red m obs) in
+      if Nat.leb (length obs) 18 then
+        let r' := show (accepts m obs) in
+        if String.eqb r r' then r else ("acceptors-disagree:"%string +++ r +++ "/"%string +++ r')
+      else r
     end
   else "unknown-fn"%string.
